@@ -378,6 +378,7 @@ func checkC13(c *Ctx, r *Report) {
 	shutdownReleased(c, r, "C13.R2.shutdown-released")
 	shutdownUnbounded(c, r, "C13.R4.shutdown-unbounded")
 	shutdownClosesPacketConn(c, r, "C13.R4.shutdown-closes-packetconn")
+	ownGeneration(c, r, "C13.R5.own-generation")
 	writeDeadline(c, r, "C13.R3.write-deadline")
 	getterSameField(c, r, "C13.R3.timeout-getters", []string{"Server.getReadTimeout", "Server.getWriteTimeout"}, "a server that sets only the other timeout gets the zero value for this one: no write deadline is armed, and one client that stops reading blocks a handler, and Shutdown with it, for ever")
 	deadlineWriters(c, r, "C13.R3.deadline-writers")
@@ -686,7 +687,7 @@ func c13R5(c *Ctx, r *Report) {
 		for _, a := range withAnon(f) {
 			allInstrs(a, func(in ssa.Instruction) {
 				call, ok := in.(*ssa.Call)
-				if !ok || calleeNameSSA(&call.Call) != "builtin.close" || !anyIn(sliceOf(call.Call.Args[0]), readsField("Server", "shutdown")) {
+				if !ok || calleeNameSSA(&call.Call) != "builtin.close" || !isDrainChan(call.Call.Args[0], 0) {
 					return
 				}
 				if a == f {
@@ -880,7 +881,7 @@ func c13R5(c *Ctx, r *Report) {
 		if f, ok := m.(*ssa.Function); ok {
 			for _, a := range withAnon(f) {
 				for _, ci := range callsIn(a, "builtin.close") {
-					if anyIn(sliceOf(ci.Common().Args[0]), readsField("Server", "shutdown")) {
+					if isDrainChan(ci.Common().Args[0], 0) {
 						n++
 					}
 				}
@@ -894,7 +895,7 @@ func c13R5(c *Ctx, r *Report) {
 		if f := c.Prog.MethodValue(ms.At(i)); f != nil {
 			for _, a := range withAnon(f) {
 				for _, ci := range callsIn(a, "builtin.close") {
-					if anyIn(sliceOf(ci.Common().Args[0]), readsField("Server", "shutdown")) {
+					if isDrainChan(ci.Common().Args[0], 0) {
 						total++
 					}
 				}
@@ -935,4 +936,70 @@ func deadlineArmProblems(c *Ctx, f *ssa.Function, li *lockInfo) []string {
 		}
 	})
 	return problems
+}
+
+// isDrainChan: the value is the server's drain channel: the field Server.shutdown itself, the result of a helper
+// that returns it, or a variable of the enclosing function (captured by a deferred closure) that was assigned one of
+// those.
+func isDrainChan(v ssa.Value, depth int) bool {
+	if depth > 4 || v == nil {
+		return false
+	}
+	for o := range sliceOf(v) {
+		if readsField("Server", "shutdown")(o) {
+			return true
+		}
+		switch t := o.(type) {
+		case *ssa.Call:
+			g := t.Call.StaticCallee()
+			if g == nil || len(g.Blocks) == 0 || o == v && depth > 2 {
+				continue
+			}
+			all, n := true, 0
+			for _, b := range g.Blocks {
+				if ret, ok := b.Instrs[len(b.Instrs)-1].(*ssa.Return); ok && len(ret.Results) == 1 {
+					n++
+					if !anyIn(sliceOf(ret.Results[0]), readsField("Server", "shutdown")) {
+						all = false
+					}
+				}
+			}
+			if all && n > 0 {
+				return true
+			}
+		case *ssa.FreeVar:
+			fn := t.Parent()
+			idx := -1
+			for i, fv := range fn.FreeVars {
+				if fv == t {
+					idx = i
+				}
+			}
+			if idx < 0 || fn.Parent() == nil {
+				continue
+			}
+			found := false
+			allInstrs(fn.Parent(), func(in ssa.Instruction) {
+				mc, ok := in.(*ssa.MakeClosure)
+				if !ok || mc.Fn != ssa.Value(fn) || idx >= len(mc.Bindings) {
+					return
+				}
+				b := mc.Bindings[idx]
+				if isDrainChan(b, depth+1) {
+					found = true
+				}
+				if al, isAl := b.(*ssa.Alloc); isAl && al.Referrers() != nil {
+					for _, ref := range *al.Referrers() {
+						if st, isSt := ref.(*ssa.Store); isSt && st.Addr == ssa.Value(al) && isDrainChan(st.Val, depth+1) {
+							found = true
+						}
+					}
+				}
+			})
+			if found {
+				return true
+			}
+		}
+	}
+	return false
 }
